@@ -297,3 +297,166 @@ def _c12_precheck(repo):
 
 
 PROPERTIES["C12"]["precheck"] = _c12_precheck
+
+# ------------------------------------------------------------------------------------------------
+# C06
+# ------------------------------------------------------------------------------------------------
+P("C06", outside=["SHA-1 itself; 'a different username/seed/key yields a different proof' needs collision resistance (the message is shown to contain each field at a fixed offset after the name)"],
+  assumptions=[HASH_ASSUME, RNG_ASSUME])
+for _m in ["vanilla", "tbc", "wrath"]:
+    H("C06", _m + "_header", "c06_%s_client_msg" % _m, timeout=1200, oracle_features=["cap128", "q8"],
+      encodes=["%s_header::ProofSeed::{new,seed,into_client_header_crypto}" % _m, "vanilla_header::internal::calculate_world_server_proof"],
+      inputs="name (1..16 bytes), session key, server seed: any; own seed = the RNG draw (any)",
+      asserts="ProofSeed::new draws 4 bytes; seed() is that draw; proof == SHA-1(name | 0u32 | own seed LE | server seed LE | session key)",
+      bounds="-", assumes=[HASH_ASSUME, RNG_ASSUME] + (["wrath: InnerCrypto::new replaced by a recording stub (key schedule irrelevant to the proof)"] if _m == "wrath" else []))
+    H("C06", _m + "_header", "c06_%s_server_decision" % _m, timeout=1200, oracle_features=["cap128", "q8"],
+      encodes=["%s_header::ProofSeed::into_server_header_crypto" % _m, "vanilla_header::internal::calculate_world_server_proof"],
+      inputs="name, session key, both seeds, presented proof: any",
+      asserts="Ok <=> presented == SHA-1(name | 0 | client seed | own seed | session key) over all 160 bits; Err carries (presented, expected)",
+      bounds="-", assumes=[HASH_ASSUME])
+
+MODULE_NEEDS.update({"server": ["normalized_string", "client"], "client": ["normalized_string", "server"]})
+# ------------------------------------------------------------------------------------------------
+# C05
+# ------------------------------------------------------------------------------------------------
+P("C05", outside=["that a fresh 16-byte draw differs from all earlier challenges (RNG quality)", "SHA-1 collision resistance (assumed explicitly in c05_roundtrip only)"],
+  assumptions=[HASH_ASSUME, RNG_ASSUME, "one attempt from an arbitrary session state is an inductive step: it covers every finite history of attempts"])
+H("C05", "server", "c05_attempt", timeout=1200, oracle_features=["cap128", "q4"],
+  encodes=["server::SrpServer::{verify_reconnection_attempt, reconnect_challenge_data, session_key}", "srp_internal::calculate_reconnect_proof", "key::ReconnectData::randomize_data"],
+  inputs="arbitrary SrpServer state (name, K, challenge), client data, proof: any",
+  asserts="result <=> proof == SHA-1(name | client data | challenge before | K) over 160 bits; exactly one 16-byte draw; challenge afterwards == that draw on both outcomes; name and K unchanged",
+  bounds="one attempt from an arbitrary state (inductive)", assumes=[HASH_ASSUME, RNG_ASSUME])
+H("C05", "client", "c05_client_values", timeout=1200, oracle_features=["cap128", "q4"],
+  encodes=["client::SrpClient::calculate_reconnect_values", "srp_internal::calculate_reconnect_proof", "key::ReconnectData::randomized"],
+  inputs="arbitrary SrpClient, server challenge", asserts="one fresh 16-byte draw per call, returned as challenge_data; proof == SHA-1(name | draw | server challenge | K)",
+  bounds="two calls", assumes=[HASH_ASSUME, RNG_ASSUME])
+H("C05", "server", "c05_roundtrip", timeout=1800, oracle_features=["cap128", "q8"],
+  encodes=["SrpServer::verify_reconnection_attempt", "SrpClient::calculate_reconnect_values"],
+  inputs="arbitrary shared session (name, K), arbitrary first challenge, arbitrary RNG draws",
+  asserts="two legitimate reconnects in a row are accepted; replay of the first pair is refused when the challenge on offer differs (collision-free oracle assumed)",
+  bounds="three attempts", assumes=[HASH_ASSUME, RNG_ASSUME, "explicit collision-freeness of the recorded SHA-1 queries"])
+
+# ------------------------------------------------------------------------------------------------
+# C17
+# ------------------------------------------------------------------------------------------------
+P("C17", outside=["file contents longer than 8 bytes in total (quick) / 24 bytes (thorough); in particular chunked processing of very large buffers is outside the bound",
+                  "'any change changes the result' = HMAC/SHA-1 collision resistance"],
+  assumptions=[HASH_ASSUME])
+H("C17", "integrity", "c17_splits", timeout=1800, tiers=["quick"], oracle_features=["cap64", "q8"],
+  encodes=["integrity::login_integrity_check_generic", "integrity::login_integrity_check_windows", "integrity::login_integrity_check_mac", "integrity::checksum", "integrity::finalise"],
+  inputs="buffer [u8;8], len <= 8, four cut positions, salt [16], key [32]: any",
+  asserts="generic == windows == mac == SHA-1(key | HMAC(salt, concatenation)) for every split incl. empty files",
+  bounds="total length <= 8; unwind 42", assumes=[HASH_ASSUME])
+H("C17", "integrity", "c17_splits_24", timeout=5400, tiers=["thorough"], oracle_features=["cap64", "q8"],
+  encodes=["integrity::login_integrity_check_*"], inputs="buffer [u8;24], len <= 24, four cuts, salt, key: any",
+  asserts="as c17_splits", bounds="total length <= 24; unwind 42", assumes=[HASH_ASSUME])
+H("C17", "integrity", "c17_reconnect", timeout=600, oracle_features=["cap64", "q4"],
+  encodes=["integrity::reconnect_integrity_check"], inputs="salt [16] any", asserts="== SHA-1(salt | 20 zero bytes)", bounds="-", assumes=[HASH_ASSUME])
+# ------------------------------------------------------------------------------------------------
+# C16
+# ------------------------------------------------------------------------------------------------
+P("C16", outside=["SHA-1 itself", "uniqueness of the mixed-radix representation of seed mod 10! (textbook; used to read c16_remap_* as a statement about seed mod 10!)"],
+  assumptions=[HASH_ASSUME])
+H("C16", "pin", "c16_remap_perm", timeout=900, encodes=["pin::remap_pin_grid"], inputs="seed u32 any",
+  asserts="layout is a permutation of 0..9", bounds="all 2^32 seeds; unwind 12", assumes=[])
+H("C16", "pin", "c16_remap_lehmer", timeout=1800, encodes=["pin::remap_pin_grid"], inputs="mixed-radix digits d0..d9 (d_k < 10-k) any; seed = their value (< 10!)",
+  asserts="layout == factorial-base decode of the digits, for every residue modulo 10!", bounds="all 3,628,800 seeds below 10!; unwind 12", assumes=[])
+H("C16", "pin", "c16_remap_periodic", timeout=5400, tiers=["thorough"], encodes=["pin::remap_pin_grid"],
+  inputs="q <= 1183 and mixed-radix digits any; seed = q*10! + value (all u32 seeds)",
+  asserts="layout == factorial-base decode of the digits, independent of q", bounds="all 2^32 seeds; unwind 12", assumes=[])
+H("C16", "pin", "c16_digits", timeout=900, encodes=["pin::pin_to_bytes"], inputs="pin u32 any",
+  asserts="digits are the decimal expansion, most significant first, no leading zero, <= 10 digits", bounds="all 2^32 PINs; unwind 12", assumes=[])
+H("C16", "pin", "c16_hash_msg", timeout=1800, oracle_features=["cap64", "q4"], encodes=["pin::calculate_hash"],
+  inputs="pin, seed, both salts: any", asserts="None <=> pin < 1000; else hash == SHA-1(client salt | SHA-1(server salt | ASCII positions of the digits in the layout))",
+  bounds="all PINs x all seeds; unwind 22", assumes=[HASH_ASSUME, "layout assumed a permutation here (proved by c16_remap_perm)"])
+H("C16", "pin", "c16_verify", timeout=1800, oracle_features=["cap64", "q4"], encodes=["pin::verify_client_pin_hash"],
+  inputs="pin, seed, salts, presented hash: any", asserts="true <=> a hash exists and equals the presented one over 160 bits",
+  bounds="-; unwind 22", assumes=[HASH_ASSUME])
+
+MODULE_NEEDS.update({
+    "server": ["normalized_string", "client", "srp_internal", "srp_internal_client"],
+    "client": ["normalized_string", "server", "srp_internal", "srp_internal_client"],
+    "srp_internal": ["normalized_string", "server", "client", "srp_internal_client"],
+    "srp_internal_client": ["normalized_string", "server", "client", "srp_internal"],
+})
+STUB_ASSUME = "compositional: crate-internal callees are replaced by uninterpreted stubs of the same signature (consistency table); each stub's specification is the c03_* harness of the real function; the harness asserts that every stub was reached exactly once"
+# ------------------------------------------------------------------------------------------------
+# C03
+# ------------------------------------------------------------------------------------------------
+P("C03", outside=["the primitives themselves (SHA-1, modular exponentiation): uninterpreted", "PRECALCULATED_XOR_HASH == SHA1(N) xor SHA1([7]) and the primality of N are concrete facts checked natively in selftest",
+                  "S = 0 is excluded here (C14)"],
+  assumptions=[HASH_ASSUME, BIG_ASSUME, STUB_ASSUME])
+_C03 = [
+ ("srp_internal", "c03_x", ["cap64", "q4"], "calculate_x", "U, P (1..16 bytes each), salt: any", "x == H(salt | H(U ':' P))"),
+ ("srp_internal", "c03_verifier", ["cap128", "q8", "b4"], "calculate_password_verifier", "U, P, salt any; x uninterpreted", "v == pad32(7^x mod N)"),
+ ("srp_internal", "c03_b_server", ["b8"], "calculate_server_public_key, PublicKey::try_from_bigint", "v, b: any 32 bytes", "B == pad32((3*v + 7^b) mod N); refused only when 0"),
+ ("srp_internal", "c03_u", ["cap64", "q4"], "calculate_u", "A, B valid keys any", "u == H(A | B)"),
+ ("srp_internal", "c03_s_server", ["b8"], "calculate_S, From<Integer> for SKey", "A valid, v, u, b any", "S == pad32((A * v^u)^b mod N) for every value below N"),
+ ("srp_internal", "c03_interleave", ["cap64", "q8"], "calculate_interleaved, SKey::as_equal_slice", "S: any 32 bytes != 0", "K == SHA_Interleave(S without low zero bytes, one more if odd)"),
+ ("srp_internal", "c03_m1_builtin", ["cap192", "q4"], "calculate_client_proof", "U, K, A, B, salt any", "M1 == H(xor const | H(U) | salt | A | B | K)"),
+ ("srp_internal", "c03_m2", ["cap128", "q4"], "calculate_server_proof", "A, M1, K any", "M2 == H(A | M1 | K)"),
+ ("srp_internal", "c03_xor_custom", ["cap64", "q4"], "calculate_xor_hash", "N', g any", "== H(N') xor H([g])"),
+ ("srp_internal", "c03_session_key", ["cap128", "q8"], "calculate_session_key", "A, B, v, b any; callees uninterpreted", "K == interleave(S(A, v, u(A,B), b))"),
+ ("srp_internal_client", "c03_a_client", ["b4"], "calculate_client_public_key, PublicKey::client_try_from_bigint", "a, g, N' != 0 any", "A == pad32(g^a mod N'); refused only when 0"),
+ ("srp_internal_client", "c03_s_client", ["b8"], "calculate_client_S", "B valid, x, a, u, g, N' != 0 any", "S == pad32((B - 3*g^x)^(a + u*x) mod N') incl. negative base"),
+ ("srp_internal_client", "c03_m1_custom", ["cap192", "q8"], "calculate_client_proof_with_custom_value", "U, K, A, B, salt, N', g any", "M1 == H(H(N') xor H(g) | H(U) | salt | A | B | K)"),
+ ("server", "c03_registration", ["cap128", "q8"], "SrpVerifier::{from_username_and_password, from_database_values, into_proof, accessors}", "U, P any; RNG draws any; callees uninterpreted", "salt, b fresh draws; v == v(U,P,salt); B == B(v,b); record survives export/import"),
+ ("client", "c03_client_challenge", ["cap192", "q16"], "SrpClientChallenge::new", "U, P, g, N', B, salt any; a = RNG draw; callees uninterpreted", "A, K, M1 are the leaf functions applied to (a, announced g and N', B, salt, U, P)"),
+]
+for _m, _n, _of, _enc, _in, _as in _C03:
+    H("C03", _m, _n, timeout=2400, oracle_features=_of, encodes=[_enc], inputs=_in, asserts=_as, bounds="fixed-width fields; names 1..16 bytes", assumes=[HASH_ASSUME, BIG_ASSUME])
+# ------------------------------------------------------------------------------------------------
+# C02
+# ------------------------------------------------------------------------------------------------
+P("C02", outside=["'another password or username yields another proof' needs SHA-1 collision resistance; what is decided is that M1/M2 are compared over all 160 bits against the value determined by the stored record and the exchanged keys"],
+  assumptions=[HASH_ASSUME, STUB_ASSUME])
+H("C02", "server", "c02_server_decision", timeout=2400, oracle_features=["cap192", "q8"],
+  encodes=["server::SrpProof::{into_server, server_public_key, salt}", "key_wrapper!(Proof) PartialEq"],
+  inputs="arbitrary SrpProof (name, B, salt, b, v), any valid A, any M1", asserts="Ok <=> M1 == M1(U, K(A,B,v,b), A, B, salt) over 160 bits; Ok carries M2(A,M1,K), K and the username; Err carries (M1, expected); no SrpServer on reject (type)",
+  bounds="-", assumes=[STUB_ASSUME, RNG_ASSUME])
+H("C02", "client", "c02_client_decision", timeout=2400, oracle_features=["cap128", "q4"],
+  encodes=["client::SrpClientChallenge::{verify_server_proof, client_proof, client_public_key}"],
+  inputs="arbitrary SrpClientChallenge, any M2", asserts="Ok <=> M2 == M2(A, M1, K) over 160 bits; Err carries both proofs", bounds="-", assumes=[STUB_ASSUME])
+
+# ------------------------------------------------------------------------------------------------
+# C15
+# ------------------------------------------------------------------------------------------------
+P("C15", outside=["statistical quality and non-repetition of ThreadRng (a CSPRNG can return anything; what is decided is that every documented random value IS a fresh full-width draw made during that call)",
+                  "draws made on different threads (no concurrency in Kani); a deterministic generator (StdRng/SeedableRng) is modelled as a function of its seed and is not a fresh draw"],
+  assumptions=[RNG_ASSUME, STUB_ASSUME])
+H("C15", "server", "c03_registration", timeout=2400, oracle_features=["cap128", "q8"], encodes=["SrpVerifier::from_username_and_password", "SrpVerifier::into_proof", "key_new!(Salt)", "key_new!(PrivateKey)"],
+  inputs="U, P any", asserts="salt and b are fresh 32-byte draws made during the call; B is computed from that b", bounds="-", assumes=[RNG_ASSUME, STUB_ASSUME])
+H("C15", "client", "c03_client_challenge", timeout=2400, oracle_features=["cap192", "q16"], encodes=["SrpClientChallenge::new"],
+  inputs="any", asserts="a is a fresh 32-byte draw made during the call; A is computed from that a", bounds="-", assumes=[RNG_ASSUME, STUB_ASSUME])
+H("C15", "server", "c02_server_decision", timeout=2400, oracle_features=["cap192", "q8"], encodes=["SrpProof::into_server", "key_new!(ReconnectData)"],
+  inputs="any", asserts="accepting a login draws a fresh 16-byte reconnect challenge, which is the one on offer", bounds="-", assumes=[RNG_ASSUME, STUB_ASSUME])
+H("C15", "server", "c05_attempt", timeout=1200, oracle_features=["cap128", "q4"], encodes=["SrpServer::verify_reconnection_attempt", "ReconnectData::randomize_data"],
+  inputs="any", asserts="every attempt, accepted or not, replaces the challenge by a fresh 16-byte draw", bounds="-", assumes=[RNG_ASSUME])
+H("C15", "client", "c05_client_values", timeout=1200, oracle_features=["cap128", "q4"], encodes=["SrpClient::calculate_reconnect_values"],
+  inputs="any", asserts="a fresh 16-byte client challenge per call", bounds="-", assumes=[RNG_ASSUME])
+for _m in ["vanilla", "tbc", "wrath"]:
+    H("C15", _m + "_header", "c06_%s_client_msg" % _m, timeout=1200, oracle_features=["cap128", "q8"], encodes=["%s_header::ProofSeed::new" % _m],
+      inputs="any", asserts="the seed is a fresh 4-byte draw and is the value used", bounds="-", assumes=[RNG_ASSUME])
+H("C15", "integrity", "c15_integrity_salt", timeout=600, encodes=["integrity::get_salt_value"], inputs="-", asserts="fresh 16-byte draw per call", bounds="two calls", assumes=[RNG_ASSUME])
+H("C15", "pin", "c15_pin_generators", timeout=600, encodes=["pin::get_pin_salt", "pin::get_pin_grid_seed"], inputs="-", asserts="fresh 16-byte / 4-byte draw per call", bounds="two calls each", assumes=[RNG_ASSUME])
+
+MODULE_NEEDS.update({"matrix_card": ["rc4"]})
+# ------------------------------------------------------------------------------------------------
+# C18
+# ------------------------------------------------------------------------------------------------
+P("C18", outside=["coordinate generation is checked for the concrete card shapes 2x2, 3x3 (all challenge counts) and 8x10 (up to 3 challenges), not for every shape up to 255 cells (symbolic dimensions ran out of memory in the design probe)",
+                  "formatting of a cell's digits into a string by the printer is not executed (the chunk handed to the formatter is compared)", "MD5/HMAC-SHA1 uninterpreted; RC4 key schedule on a symbolic key out of reach"],
+  assumptions=[HASH_ASSUME])
+_MC = dict(features=["matrix-card"])
+H("C18", "matrix_card", "c18_cells", timeout=1800, encodes=["MatrixCard::{get_number_at_coordinates, from_data, to_printer, get_matrix_card_size, width, height, digit_count, data}"],
+  inputs="width, height >= 1 with width*height <= 255, digit_count 1..4, coordinates on the card: all any",
+  asserts="cell(x,y) is the slice at offset (y*width+x)*digit_count of length digit_count == the (y*width+x)-th printed chunk; two cells never overlap; no panic",
+  bounds="all card shapes up to 255 cells, 1..4 digits", assumes=[], **_MC)
+H("C18", "matrix_card", "c18_from_data", timeout=900, encodes=["MatrixCard::from_data"], inputs="dimensions any, data length <= 64 any",
+  asserts="accepted <=> length == digits*width*height", bounds="data <= 64 bytes", assumes=[], **_MC)
+for _n, _b in [("c18_coordinates_2x2", "2x2 card, count 1..4"), ("c18_coordinates_3x3", "3x3 card, count 1..9"), ("c18_coordinates_8x10", "8x10 card, count 1..3")]:
+    H("C18", "matrix_card", _n, timeout=2400, oracle_features=["cap64", "q4"], encodes=["matrix_card::generate_coordinates", "MatrixCardVerifier::get_matrix_coordinates"],
+      inputs="challenge count, 64-bit seed, two rounds 0..=255: any", asserts="round < count: Some(x<w, y<h), distinct rounds give distinct cells; otherwise None, no panic",
+      bounds=_b, assumes=["verifier built directly from generate_coordinates (MD5/RC4 key schedule skipped)"], **_MC)
+H("C15", "matrix_card", "c15_matrix_generators", timeout=900, encodes=["matrix_card::get_matrix_card_seed", "MatrixCard::new", "fill_matrix_card_values"],
+  inputs="-", asserts="seed is a fresh 8-byte draw; each digit is its own fresh draw reduced into 0..=9", bounds="2x1 card with 2 digits", assumes=[RNG_ASSUME, "Uniform modelled as lo + draw % span"], **_MC)
